@@ -56,6 +56,9 @@ def guard(fn, *a):
 
 
 # ---------------------------------------------------------------- element checkers
+from mc.userkinds import Stamp, Day  # noqa: E402
+
+
 def el_date(c, d):
     c.n += 1
     c.trans += 4
@@ -73,6 +76,11 @@ def el_date(c, d):
     t2 = guard(lambda: b2s(vDDDTypes(d).to_ical()))
     if t2 != t:
         c.fail("DATE:combined-encoder", elem, t, t2)
+    # an instance of a user subclass of date is a date (mc/userkinds.py)
+    sd = Day(d.year, d.month, d.day)
+    t3 = guard(lambda: (b2s(vDDDTypes(sd).to_ical()), b2s(vDate(sd).to_ical())))
+    if t3 != ("ok", (t[1], t[1])):
+        c.fail("DATE:subclass-instance-encodes-differently", elem, t, t3)
 
 
 def el_datetime(c, dt, utc):
@@ -96,6 +104,11 @@ def el_datetime(c, dt, utc):
     t2 = guard(lambda: b2s(vDDDTypes(val).to_ical()))
     if t2 != t:
         c.fail("DATE-TIME:combined-encoder", elem, t, t2)
+    # an instance of a user subclass of datetime is a date-time (mc/userkinds.py)
+    sv = Stamp(val.year, val.month, val.day, val.hour, val.minute, val.second, tzinfo=val.tzinfo)
+    t3 = guard(lambda: (b2s(vDDDTypes(sv).to_ical()), b2s(vDatetime(sv).to_ical())))
+    if t3 != ("ok", (t[1], t[1])):
+        c.fail("DATE-TIME:subclass-instance-encodes-differently", elem, t, t3)
 
 
 def el_time(c, tm):
